@@ -103,7 +103,7 @@ def df_rows(df, hier, nm, named):
                 if l != hier[-1]:
                     alias = -7
                 elif named:
-                    mm = re.fullmatch(rf'a{l}(\d+)', al)
+                    mm = re.fullmatch(rf'a?{l}(\d+)', al)
                     alias = 2000 + int(mm.group(1)) if mm else -7
                 else:
                     alias = inv(al)
